@@ -53,6 +53,7 @@ func runC12(seed uint64, n int, tier string, outDir string) []*Stats {
 	mangleCases(r, n/2, cf, st)
 	glueTransform(r, n/2, st, cf)
 	glueBundle(r, n/3, st)
+	glueLocal(r, n/15, st)
 
 	st.Finish("seeded generator (splitmix64 from VERIF_SEED); distinct_nontrivial = distinct (family,input) pairs that exercise a non-identity path")
 	if err := os.WriteFile(filepath.Join(outDir, "c12_cases.v"), []byte(cf.String()), 0o644); err != nil {
